@@ -51,6 +51,7 @@ def _stub_recorder(P, log, modname, fname, result):
         supplied.update(params[: len(args)])
         supplied.update(kwargs)
         log.append((fname, bound, supplied, node))
+        I.event("stub-call", node, (fname, bound, supplied, node))  # (per explored path: the log above mixes the paths)
         return result() if callable(result) else result
 
     return stub
@@ -61,6 +62,7 @@ def wiring_runs(P):
     out = []
     for z0_mode, flux_given, levels_kind, full_output, met_list, fp_mode in itertools.product(("none", "only", "both"), (False, True), ("none", "empty", "list"), (False, True), (False, True), (False, True)):
         ov = {"config.solver.footprint": fp_mode}  # both modes: in footprint mode the solver reads only the shape of the flux field
+        ov["config.solver.src_loc"] = Tup([alg.sym("config.solver.src_loc[0]"), alg.sym("config.solver.src_loc[1]")], "tuple")  # (a configured pair: an object, not a number)
         z0_given = z0_mode != "none"
         lv = None
         if levels_kind == "empty":
@@ -128,11 +130,20 @@ def wire_obligations(P, run):
     tag = "z0=%s flux=%s levels=%s full_output=%s series=%s%s" % (run["z0_mode"], run["flux"], run["levels"], run["full"], run["met_list"], " footprint" if run.get("fp") else "")
     site0 = "src/bldfm/interface.py::run_bldfm_single"
     rets = [r for r in run["res"] if r.kind == "return"]
-    if len(run["res"]) != 1 or len(rets) != 1:
-        obs.append(req_ob("R-WIRE", site0, "one straight path for fixed options (%s)" % tag, False if run["res"] else None,
+    if not rets or len(rets) != len(run["res"]):
+        obs.append(req_ob("R-WIRE", site0, "a run with valid fixed options returns (%s)" % tag, False if run["res"] else None,
                           detail="%d paths: %s" % (len(run["res"]), [(r.kind, r.raise_desc, r.path) for r in run["res"]][:3])))
         return obs
-    log = run["log"]
+    if len(rets) > 1:
+        # the code distinguishes cases of the values it was given (a test on a configured number): every case is held to the rules
+        for r in rets:
+            sub = dict(run, res=[r])
+            case = "; ".join("%s=%s" % (d[:60], c) for d, c in r.path)[:200]
+            for o in wire_obligations(P, sub):
+                o.what = "%s [case: %s]" % (o.what, case)
+                obs.append(o)
+        return obs
+    log = [e[2] for e in rets[0].events if e[0] == "stub-call"]
     calls = {}
     for fname, bound, supplied, node in log:
         calls.setdefault(fname, []).append((bound, supplied, node))
